@@ -6,7 +6,7 @@ ALLOWED_AXIOMS = []   # no axiom is expected under any property theorem
 TRUSTED_BASE = [
     "Coq 8.16.1 kernel (coqc; full .vo build, no -vos/-vok); vm_compute is used inside Example/witness proofs; native_compute is not used",
     "no Axiom/Parameter/Admitted in the development (scanned on every run); Print Assumptions of every property theorem recorded in axioms_per_theorem",
-    "extraction plugin with ExtrOcamlBasic + ExtrOcamlString only (their built-in Extract Inductive for bool/option/unit/list/prod/sumbool/sumor/ascii->char/string->char list; no Extract Constant of our own), OCaml 4.13.1, coq/extract/driver.ml (I/O only)",
+    "extraction plugin with ExtrOcamlBasic + ExtrOcamlString only (their built-in Extract Inductive for bool/option/unit/list/prod/sumbool/sumor/ascii->char/string->char list; no Extract Constant of our own), OCaml 4.13.1, coq/extract/driver.ml (I/O only); on every run a sample of the run's own case lines (16 quick / 160 thorough) is re-evaluated by the kernel (vm_compute of GTS.Main.run_line_case inside coqc) and must equal the extracted driver's output line for line (evidence: extraction_crosscheck)",
     "correspondence harness /verif/harness (generators, AST serialiser sx.rs, canonical renderers) and the Coq-side reader/renderer Sexp.v / Render.v / Run.v: a bug there can hide a disagreement, not create a theorem",
     "hand-written Gallina model of the Rust code (coq/theories): tied to /repo's working tree only by differential execution on the generated inputs of this run (distribution in input_distribution)",
     "graphql-parser (parsing, positions) is outside the model: implementation and model both start from the AST the real parser produced",
